@@ -21,7 +21,7 @@ TECHNIQUE = ('exhaustive enumeration of measurement structures x solvers x itera
              'stored marginals vs BP(stored parameters) and every query vs the explicit joint of the stored parameters')
 RULE = ('case = (structure, total, solver, iterations, structural zero, input kind); structures: the 63 subsets of the 3-attribute menu '
         'plus the empty list; totals {1, 37.5, None}; iterations {1,2,3,10,50}; input kind {noisy, exactly-uniform answers (loss 0 at start)}; '
-        'non-trivial = >= 2 measurements; distinct = digest of the case.')
+        'for iterations = 10 the returned model is then used (synthetic_data in both modes, datavector, clique projections in both orders, bulk answers) and every clause re-evaluated after each use; non-trivial = >= 2 measurements; distinct = digest of the case.')
 LEVEL_TEXT = ('Every (structure, solver, iteration count, exit path) combination of the alphabet is run and the returned object is checked for '
               'internal coherence: the two representations project() reads from must describe the same table, all answers finite, '
               'nonnegative, summing to the total and mutually consistent.')
